@@ -254,9 +254,14 @@ def step(stream, model, op, width):
     st, val = guarded(lambda: impl_apply(stream, op), 5.0)
     if st == "hang":
         return False, "hang", {"op": op, "observed": "non-termination"}, True
-    if must_reject:
+    if must_reject or (st == "exc" and may_reject):
         if st == "exc":
-            return True, "rejected:" + type(val).__name__, None, True
+            # a rejected operation has no effect: the view is still where it was (model state is untouched, Reject is
+            # raised before the model moves) and the history goes on
+            st2, pos = guarded(lambda: stream.tell(), 5.0)
+            if st2 != "ok" or pos != model.p:
+                return False, "moved-by-rejected-op", {"op": op, "expected_pos": model.p, "observed_pos": repr(pos)[:80]}, True
+            return True, ("rejected:" + type(val).__name__) if must_reject else "rejected-optional", None, False
         return False, "unaligned-accepted", {"op": op, "expected": "rejection", "observed": repr(val)[:80]}, True
     if st == "exc":
         if may_reject:
@@ -285,7 +290,8 @@ class Check(CheckBase):
             "compared with a bytes-slice reference; non-trivial = state with cursor on a sector boundary "
             "or at the logical end, or a read edge spanning >=1 sector boundary")
     assumptions = ["views are non-empty; whence always passed explicitly",
-                   "reversed view: requested size unaligned but clipped size aligned may be accepted or rejected"]
+                   "reversed view: requested size unaligned but clipped size aligned may be accepted or rejected",
+                   "a rejected operation leaves the view where it was; histories continue after a rejection"]
 
     def shards(self):
         cfgs = configs(self.quick)
